@@ -145,6 +145,7 @@ type runtimeState struct {
 	st        Stats
 	verdict   int
 	nprobers  int // tasks blocked with a probe
+	stayRun   int // decisions in a row that kept the current task running
 	idleFires int // timers fired in a row while no task could run
 	pctChange [8]int64
 	npct      int
@@ -377,6 +378,23 @@ func decide(site int) int {
 			}
 		}
 	}
+	if !R.tape.S[KSched].Replay && R.cfg.Policy != PolRandom {
+		// fairness valve: a policy that would keep one task running for ever although
+		// others could run (PCT with a spinning top-priority task, a sticky policy that
+		// never switches) lets somebody else in after 50 000 decisions in a row - Go's
+		// scheduler is fair in the long run, and a spin-wait that terminates under it
+		// must terminate here
+		if v == 0 {
+			R.stayRun++
+			if R.stayRun > 50000 {
+				R.stayRun = 0
+				v = 1 + int(R.tape.rawRand(KSched)%uint64(n))
+				R.tasks[R.cur].prio = -int(R.st.Steps) - 1
+			}
+		} else {
+			R.stayRun = 0
+		}
+	}
 	c := R.tape.chooseWith(KSched, n+1, v)
 	if c == 0 {
 		return R.cur
@@ -440,6 +458,34 @@ func Yield(site int, obj uint64) {
 	if n != me {
 		switchTo(me, n)
 	}
+}
+
+// YieldAway is a scheduling point at which the current task gives way: if anybody
+// else can run, somebody else does (runtime.Gosched, time.Sleep). Under PCT the task
+// also falls below every other priority, as a yielding thread does in that scheme.
+//
+//go:norace
+func YieldAway(site int) {
+	if !R.active || R.quiet != 0 {
+		return
+	}
+	step()
+	R.st.Yields[site]++
+	event(site, 1)
+	if timersPending() {
+		stall()
+		fireDue()
+	}
+	wakeProbers()
+	me := R.cur
+	var list [MaxTasks]int
+	n := runnable(&list, me)
+	if n == 0 {
+		return
+	}
+	R.tasks[me].prio = -int(R.st.Steps) - 1
+	R.stayRun = 0
+	switchTo(me, pickOther(&list, n))
 }
 
 // Block parks the current task until Unblock(key); the caller re-checks its
@@ -598,6 +644,7 @@ func Begin(cfg Config) {
 	resetClock()
 	resetTimers()
 	R.nprobers = 0
+	R.stayRun = 0
 	R.idleFires = 0
 	R.cpus = 0
 	resetRand()
